@@ -115,6 +115,8 @@ class RandCfg:
 
 def random_group(rng, gi, cfg):
     g = Gram(gi)
+    if getattr(cfg, "labpool", None):
+        g.labpool, g.labrng = list(cfg.labpool), rng
     nr = rng.randint(1, cfg.maxrules)
     roots = [None] * nr
     labs_in_scope = []
@@ -184,7 +186,7 @@ def random_group(rng, gi, cfg):
             return g.recover(e, rec, labs)
         if k == "throw":
             cand = [l for l in sorted({l for h in handlers for l in h}) if LABS.index(l) >= minlab]
-            if not cand or rng.random() < 0.15:
+            if not cand or rng.random() < 0.4:
                 cand = LABS[minlab:]
             return g.throw(rng.choice(cand))
         raise ValueError(k)
@@ -207,7 +209,7 @@ def random_groups(seed, n, cfg, gi0=1):
 PLUS, MINUS, STAR_, LP, RP, NN = 43, 45, 42, 40, 41, 110
 
 
-def lr_group(rng, gi, cfg=None):
+def lr_group(rng, gi, cfg=None, pure=False):
     """A tower of 1..3 left-recursive rules  A <- A a1 / .. / A ak / b1 / ..  (direct, or through one other
     rule per alternative), operands from a small non-left-recursive expression family."""
     g = Gram(gi)
@@ -219,7 +221,7 @@ def lr_group(rng, gi, cfg=None):
     nrules = height
     lr = []
     pending_helpers = []
-    use_state = rng.random() < 0.4
+    use_state = (not pure) and rng.random() < 0.4
     use_err = rng.random() < 0.4
 
     def operand(level):
@@ -243,7 +245,7 @@ def lr_group(rng, gi, cfg=None):
         if use_state and rng.random() < 0.5:
             items.append(g.state(rng.choice(["set", "inc"]), "x", rng.randint(1, 2), err=use_err and rng.random() < 0.2))
         if rng.random() < 0.2:
-            items.append(g.pred(False, rng.choice(["true", "eq"]), "x", rng.randint(0, 2)))
+            items.append(g.pred(False, "true" if pure else rng.choice(["true", "eq"]), "x", rng.randint(0, 2)))
         r = operand(level)
         items.append(g.label(r) if rng.random() < 0.7 else r)
         return items
@@ -266,10 +268,15 @@ def lr_group(rng, gi, cfg=None):
                 alts.append(body)
         nb = rng.randint(1, 2)
         for j in range(nb):
-            alts.append(operand(level) if level < height or j > 0 else g.action(g.lit([NN])))
+            b = operand(level) if level < height or j > 0 else g.action(g.lit([NN]))
+            if j == nb - 1 and rng.random() < 0.15:
+                b = g.un("opt", g.lit([NN]))        # a base that can match the empty string
+            alts.append(b)
         roots.append(g.choice(alts))
         lr.append(k)
     for idx, body in pending_helpers:
+        if rng.random() < 0.4:      # the other rule of the cycle has a base alternative of its own
+            body = g.choice([body, g.action(g.lit([rng.choice([LP, 121])]))])
         roots.append(body)
         lr.append(0)
     g.rules = roots
@@ -280,9 +287,9 @@ def lr_group(rng, gi, cfg=None):
     return g
 
 
-def lr_groups(seed, n, gi0=1):
+def lr_groups(seed, n, gi0=1, pure=False):
     rng = random.Random(seed)
-    return [lr_group(rng, gi0 + i) for i in range(n)]
+    return [lr_group(rng, gi0 + i, pure=pure) for i in range(n)]
 
 
 # ---- C07: shapes around rule references ---------------------------------------------------------
